@@ -21,8 +21,9 @@ class BuildError(Exception):
     pass
 
 
-class Hang(Exception):
-    """an implementation call did not return within its time limit"""
+class Hang(BaseException):
+    """an implementation call did not return within its time limit (a BaseException so that the broad
+    `except Exception` handlers of harness code and of the code under test do not swallow the deadline)"""
 
 
 import contextlib, signal
